@@ -91,6 +91,7 @@ def analyse(hist, rm: RM, outcome, cfg=None, want=None) -> Analysis:
     steps: Dict[str, List[Step]] = {sid: [] for sid in sids}
     open_step: Dict[str, Optional[Step]] = {sid: None for sid in sids}
     dem = rm.initial_demands()
+    dem_q = {sid_: {t_: -1 for t_ in d_} for sid_, d_ in dem.items()}
     prods: Dict[tuple, List[Prod]] = {}
     c01_bad_steps = set()
     c03_done = False
@@ -209,6 +210,7 @@ def analyse(hist, rm: RM, outcome, cfg=None, want=None) -> Analysis:
         dem[u].setdefault(t_u, []).append(cause)
         if known_before:
             return
+        dem_q[u][t_u] = q
         for e in rm.outof[u]:
             if e.v == u or not steps[e.v]:
                 continue
@@ -425,6 +427,7 @@ def analyse(hist, rm: RM, outcome, cfg=None, want=None) -> Analysis:
 
     A.steps = steps
     A.dem = dem
+    A.dem_q = dem_q          # position in the history at which a demand became known (initial: -1)
     # ---- C02 final: executed set == demand set (completed runs only)
     if A.completed:
         for sid in sids:
